@@ -93,6 +93,29 @@ Verdict(t, e) ==
            ELSE IF Cardinality({gs[k] : k \in DOMAIN gs}) # Len(gs) THEN <<"PairwiseDistinct", "iso_finder">>
            ELSE IF \E k \in DOMAIN gs : ~Isomorphic(G1, gs[k], n) THEN <<"AllIsomorphic", "iso_finder">>
            ELSE <<"ok", "">>
+    [] e.fn = "iso_finder_cert" ->
+         \* as iso_finder, on graphs too large for a search over all permutations: the harness supplies for every returned
+         \* graph a permutation (e.certs[k]) and TLC verifies that it is an isomorphism from base onto it
+         IF e.out.err # "" THEN <<"Raised", "iso_finder">>
+         ELSE IF \E k \in DOMAIN e.out.graphs : ~GraphOK(n, e.out.graphs[k]) THEN <<"OutputIsGraph", "iso_finder">>
+         ELSE LET gs == [k \in DOMAIN e.out.graphs |-> GOf(n, e.out.graphs[k])] IN
+           IF Len(gs) > e.n_iso THEN <<"NeverMoreThanRequested", "iso_finder">>
+           ELSE IF Len(gs) = 0 \/ (~e.sorted /\ gs[1] # G1) THEN <<"InputFirst", "iso_finder">>
+           ELSE IF e.sorted /\ G1 \notin {gs[k] : k \in DOMAIN gs} THEN <<"InputPresent", "iso_finder">>
+           ELSE IF Cardinality({gs[k] : k \in DOMAIN gs}) # Len(gs) THEN <<"PairwiseDistinct", "iso_finder">>
+           ELSE IF Len(e.certs) # Len(gs) \/ \E k \in DOMAIN gs : ~IsIsoBy(G1, gs[k], n, e.certs[k]) THEN <<"AllIsomorphic", "iso_finder">>
+           ELSE <<"ok", "">>
+    [] e.fn = "orbit_cert" ->
+         \* as orbit, on graphs whose whole orbit is out of reach: membership is certified by a local-complementation
+         \* sequence per returned graph (found by the harness, replayed here)
+         IF e.out.err # "" THEN <<"Raised", e.via>>
+         ELSE IF \E k \in DOMAIN e.out.graphs : ~GraphOK(n, e.out.graphs[k]) THEN <<"OutputIsGraph", e.via>>
+         ELSE LET gs == [k \in DOMAIN e.out.graphs |-> GOf(n, e.out.graphs[k])] IN
+           IF Len(e.certs) # Len(gs) \/ \E k \in DOMAIN gs :
+                   (\E j \in DOMAIN e.certs[k] : e.certs[k][j] \notin 1..n) \/ LCSeq(G1, n, e.certs[k], 1) # gs[k]
+           THEN <<"OrbitMember", e.via>>
+           ELSE IF e.distinct /\ Cardinality({gs[k] : k \in DOMAIN gs}) # Len(gs) THEN <<"OrbitDistinct", e.via>>
+           ELSE <<"ok", "">>
     [] e.fn = "orbit" ->
          \* out.graphs: graphs returned by an LC-orbit explorer started from base
          IF e.out.err # "" THEN <<"Raised", e.via>>
